@@ -15,6 +15,7 @@ import (
 	"testing"
 
 	"github.com/ipfs/boxo/ipld/merkledag"
+	blocks "github.com/ipfs/go-block-format"
 	cid "github.com/ipfs/go-cid"
 	format "github.com/ipfs/go-ipld-format"
 	mh "github.com/multiformats/go-multihash"
@@ -246,6 +247,7 @@ const (
 	kCopy
 	kUpdate
 	kRedecode
+	kReblock
 	kCid
 	kRaw
 	kLinks
@@ -290,6 +292,8 @@ func (o hop) String() string {
 		return "UpdateNodeLink(" + o.l.String() + ")"
 	case kRedecode:
 		return "n=DecodeProtobuf(n.RawData())"
+	case kReblock:
+		return "n=DecodeProtobufBlock(block(n.RawData(),n.Cid()))"
 	case kCid:
 		return "Cid"
 	case kRaw:
@@ -441,6 +445,19 @@ func runHistory(t *testing.T, h history) runResult {
 			nn, err := merkledag.DecodeProtobuf(raw)
 			if err == nil {
 				n = nn
+			}
+			obs = append(obs, okErr(err))
+		case kReblock:
+			ops = append(ops, "OReblock")
+			raw := n.RawData()
+			table(raw)
+			blk, err := blocks.NewBlockWithCid(raw, n.Cid())
+			if err != nil {
+				t.Fatal(err)
+			}
+			nn, err := merkledag.DecodeProtobufBlock(blk)
+			if err == nil {
+				n = nn.(*merkledag.ProtoNode)
 			}
 			obs = append(obs, okErr(err))
 		case kCid:
@@ -595,8 +612,10 @@ func genHistory(e *vh.Env) history {
 			}
 			o = hop{k: kUpdate, l: lnk{name: nm, size: uint64(r.Intn(6))}}
 			present = append(present, nm)
-		case x < 74:
+		case x < 73:
 			o = hop{k: kRedecode}
+		case x < 75:
+			o = hop{k: kReblock}
 		case x < 83:
 			o = hop{k: kCid}
 		case x < 89:
@@ -613,6 +632,41 @@ func genHistory(e *vh.Env) history {
 		h.ops = append(h.ops, o)
 	}
 	h.ops = append(h.ops, finalReads...)
+	return h
+}
+
+// genWide: 13..40 links over three names (many duplicates) with short CIDs, so that
+// an unstable or non-bytewise sort shows (Go's sorts are insertion sorts below 13 elements).
+func genWide(e *vh.Env) history {
+	r := e.Rng
+	h := history{d0: []byte{byte(r.Intn(256))}}
+	n := 13 + r.Intn(28)
+	mk := func(i int) lnk {
+		return lnk{name: []string{"a", "b", "", "a", "ab"}[r.Intn(5)], size: uint64(i), c: linkCids[r.Intn(6)]}
+	}
+	if r.Intn(2) == 0 {
+		ls := make([]lnk, n)
+		for i := range ls {
+			ls[i] = mk(i)
+		}
+		h.ops = append(h.ops, hop{k: kSetLinks, ls: ls})
+	} else {
+		for i := 0; i < n; i++ {
+			h.ops = append(h.ops, hop{k: kAdd, l: mk(i)})
+			if r.Intn(12) == 0 {
+				h.ops = append(h.ops, hop{k: []opk{kLinks, kCid, kTree}[r.Intn(3)]})
+			}
+		}
+	}
+	switch r.Intn(4) {
+	case 0:
+		h.ops = append(h.ops, hop{k: kCopy})
+	case 1:
+		h.ops = append(h.ops, hop{k: kRemove, l: lnk{name: "b"}})
+	case 2:
+		h.ops = append(h.ops, hop{k: kSetBuilder, bid: 1}, hop{k: kReblock})
+	}
+	h.ops = append(h.ops, hop{k: kCid}, hop{k: kRaw}, hop{k: kLinks})
 	return h
 }
 
@@ -649,6 +703,7 @@ func corpus() []history {
 		{d0: nil, ops: []hop{{k: kSetLinks, ls: []lnk{{"z", 1, linkCids[1]}, {"a", 2, linkCids[2]}}}, R(kCid),
 			{k: kSetLinks, ls: []lnk{{"z", math.MaxUint64, linkCids[1]}}}, R(kCid), {k: kSetLinks, ls: nil}, R(kCid)}},
 		{d0: nil, ops: []hop{A(strings.Repeat("n", 130), 1, 8), R(kRaw)}},
+		{d0: []byte("k"), ops: []hop{SB(bl), A("a", 1, 1), R(kReblock), R(kCid), A("b", 1, 2), R(kCid), SB(-1), R(kCid), R(kReblock), R(kCid)}},
 	}
 	for i := range hs {
 		hs[i].ops = append(hs[i].ops, finalReads...)
@@ -832,6 +887,9 @@ func TestC11(t *testing.T) {
 		if i < len(hs) {
 			h = hs[i]
 			st.Count("corpus")
+		} else if i%25 == 7 {
+			h = genWide(e)
+			st.Count("wide")
 		} else {
 			h = genHistory(e)
 		}
@@ -844,7 +902,7 @@ func TestC11(t *testing.T) {
 		rp := map[string]any{"kind": "history", "data0": h.d0, "data0_nil": h.d0 == nil, "ops": desc}
 		cs.Add(res.term, rp)
 		st.Case(res.key, res.nontrivial)
-		st.Count(fmt.Sprintf("len=%d", (len(h.ops)-len(finalReads))/5*5))
+		st.Count(fmt.Sprintf("len=%d", max(len(h.ops)-len(finalReads), 0)/5*5))
 		st.Sample(rp, 4)
 	}
 	dc := decodeCorpus()
